@@ -217,14 +217,19 @@ struct Server {
     nreq: i64,
     inbuf: Vec<u8>,
     eof: bool,
-    /// 0: one buffer per page, 1: one buffer per message, 2: random cuts
+    /// 0: one buffer per page, 1: one buffer per message, 2: random cuts, 3: lazy (see `outbox`)
     chunking: u8,
     rng: StdRng,
+    /// lazy serving: messages (None = end of file) are handed to the transport one at a time and only while a call of the
+    /// client is waiting, so whatever the client has not asked for when it finishes early is never sent - its ID is then
+    /// released by the client's own bookkeeping or not at all (C13)
+    outbox: std::collections::VecDeque<Option<Vec<u8>>>,
 }
 
 impl Server {
     fn push(&mut self, io: &MockIo, bytes: Vec<u8>) {
         match self.chunking {
+            3 => self.outbox.push_back(Some(bytes)),
             2 => {
                 let mut p = 0;
                 while p < bytes.len() {
@@ -239,7 +244,25 @@ impl Server {
     fn close(&mut self, io: &MockIo) {
         if !self.eof {
             self.eof = true;
-            io.push(Item::Eof);
+            if self.chunking == 3 {
+                self.outbox.push_back(None);
+            } else {
+                io.push(Item::Eof);
+            }
+        }
+    }
+    /// lazy mode: release the next withheld message; true if there was one
+    fn release_one(&mut self, io: &MockIo) -> bool {
+        match self.outbox.pop_front() {
+            Some(Some(b)) => {
+                io.push_bytes(&b);
+                true
+            }
+            Some(None) => {
+                io.push(Item::Eof);
+                true
+            }
+            None => false,
         }
     }
     fn serve(&mut self, io: &MockIo, msgid: i64) {
@@ -378,6 +401,9 @@ struct Obs {
     reqs: Vec<Value>,
     errs: Vec<String>,
     in_call: Option<String>,
+    /// C13: what the connection still holds once the stream has been finished and everything has settled
+    /// (IDs in use through the accessor; routing-table keys from the last driver snapshot), None = not observed
+    leak: Option<Value>,
 }
 
 fn item_json(re: &ResultEntry) -> Value {
@@ -465,7 +491,10 @@ async fn drive<F: Future>(fut: F, srv: &mut Server, io: &MockIo, drv: &tokio::ta
             return Some(v);
         }
         quiesce(io, drv).await;
-        let served = srv.process(io, obs, ck);
+        let mut served = srv.process(io, obs, ck);
+        if !served {
+            served = srv.release_one(io);
+        }
         quiesce(io, drv).await;
         if served {
             idle = 0;
@@ -533,6 +562,7 @@ fn execute(env: &Value, calls: &[String], seed: u64, chunking: u8, obs: &Rc<RefC
         let rt = Builder::new_current_thread().enable_time().start_paused(true).rng_seed(RngSeed::from_bytes(&seed.to_le_bytes())).build().unwrap();
         rt.block_on(async {
             let io = MockIo::new();
+            ldap3::verif::install();
             let (conn, mut ldap) = LdapConnAsync::verif_from_io(Box::new(io.clone()));
             let drv = tokio::spawn(async move {
                 use futures::FutureExt;
@@ -546,9 +576,11 @@ fn execute(env: &Value, calls: &[String], seed: u64, chunking: u8, obs: &Rc<RefC
                 eof: false,
                 chunking,
                 rng: StdRng::seed_from_u64(seed ^ 0x5eed),
+                outbox: Default::default(),
             };
             if srv.loss == (1, 0) {
                 srv.close(&io);
+                srv.release_one(&io);
                 quiesce(&io, &drv).await;
             }
             let par = &env["par"];
@@ -633,7 +665,27 @@ fn execute(env: &Value, calls: &[String], seed: u64, chunking: u8, obs: &Rc<RefC
                 }
             }
             obs.borrow_mut().in_call = None;
+            let finished = st.state() == ldap3::StreamState::Closed;
             drop(st);
+            if finished && !srv.eof {
+                // quiescent point on a live connection: a finished search must have left nothing behind (C13), whichever
+                // page it was on and however it ended
+                quiesce(&io, &drv).await;
+                let (_last, used) = ldap.verif_msgmap();
+                let lines = ldap3::verif::drain();
+                let mut res = json!([]);
+                let mut sea = json!([]);
+                for l in lines.iter().rev() {
+                    if let Ok(v) = serde_json::from_str::<Value>(l) {
+                        if v.get("s").is_some() {
+                            res = v["s"]["res"].clone();
+                            sea = v["s"]["sea"].clone();
+                            break;
+                        }
+                    }
+                }
+                obs.borrow_mut().leak = Some(json!({"used": used, "res": res, "sea": sea}));
+            }
             drop(ldap);
             srv.close(&io);
             quiesce(&io, &drv).await;
@@ -973,7 +1025,7 @@ fn replay(path: &str, report: &str) {
         let exp_outs = v["outs"].as_array().unwrap();
         let exp_reqs = v["reqs"].as_array().unwrap();
         let obs = Rc::new(RefCell::new(Obs::default()));
-        let r = execute(env, &calls[..exp_outs.len().min(calls.len())], seed.wrapping_add(idx), (idx % 2) as u8, &obs);
+        let r = execute(env, &calls[..exp_outs.len().min(calls.len())], seed.wrapping_add(idx), [0u8, 1, 3][(idx % 3) as usize], &obs);
         let panic = r.err();
         let o = obs.borrow();
         rep.count("vectors");
@@ -981,7 +1033,23 @@ fn replay(path: &str, report: &str) {
         for e in &o.errs {
             rep.count(&format!("impl-error:{}", e));
         }
-        let keys = compare(env, &calls, exp_outs, exp_reqs, &o, &panic);
+        let mut keys = compare(env, &calls, exp_outs, exp_reqs, &o, &panic);
+        if let Some(l) = &o.leak {
+            rep.count("quiescent-after-finish");
+            if o.reqs.len() >= 2 {
+                rep.count("quiescent-after-finish:paged-beyond-first-page");
+            }
+            if idx % 3 == 2 {
+                rep.count("quiescent-after-finish:lazy-server");
+            }
+            let empty = |v: &Value| v.as_array().map(|a| a.is_empty()).unwrap_or(true);
+            if !empty(&l["used"]) {
+                keys.push((format!("c13:stream:{}:id-still-reserved-after-finish", chain_name(env)), l.clone()));
+            }
+            if !empty(&l["res"]) || !empty(&l["sea"]) {
+                keys.push((format!("c13:stream:{}:routing-entry-left-after-finish", chain_name(env)), l.clone()));
+            }
+        }
         rep.eval(calls.len() > 2 || calls[0] == "search", hash_of(&v.to_string()));
         if rep.samples.len() < 3 && idx % 977 == 3 {
             rep.sample(json!({"env": env, "calls": calls, "observed": o.outs, "requests": o.reqs}));
@@ -1200,9 +1268,9 @@ fn classify(input: &str, report: &str) {
         let rec = &v["rec"];
         let env = &rec["env"];
         let calls = strs(&rec["calls"]);
-        let act = Obs { outs: rec["outs"].as_array().unwrap().clone(), reqs: rec["reqs"].as_array().unwrap().clone(), errs: vec![], in_call: None };
+        let act = Obs { outs: rec["outs"].as_array().unwrap().clone(), reqs: rec["reqs"].as_array().unwrap().clone(), errs: vec![], in_call: None, leak: None };
         let panic = act.outs.last().and_then(|o| if o["x"]["k"] == "panic" { Some(o["x"]["msg"].as_str().unwrap_or("").to_string()) } else { None });
-        let mut act2 = Obs { outs: act.outs.clone(), reqs: act.reqs.clone(), errs: vec![], in_call: None };
+        let mut act2 = Obs { outs: act.outs.clone(), reqs: act.reqs.clone(), errs: vec![], in_call: None, leak: None };
         if panic.is_some() {
             act2.outs.pop();
         }
